@@ -43,10 +43,24 @@ def reader(files):
 _clear_n = [0]
 
 
-def parse(files, main="m.emb", stop_before_step=None):
-    """Returns (ir, debug_info, errors) from the real glue.parse_emboss_file."""
+_warmed = [False]
+
+
+def parse(files, main="m.emb", stop_before_step=None, budget=25):
+    """Returns (ir, debug_info, errors) from the real glue.parse_emboss_file.
+    Runs under a CPU-seconds budget (raises CpuBudgetExceeded) when called from
+    the main thread, so one pathological input cannot stall a whole batch."""
     common.repo_on_path()
     from compiler.front_end import glue
+    if not _warmed[0]:
+        from compiler.front_end import parser
+        parser.module_parser()
+        _warmed[0] = True
+    import threading
+    if budget and threading.current_thread() is threading.main_thread() and \
+            signal.getitimer(signal.ITIMER_VIRTUAL)[0] == 0:
+        with cpu_budget(budget):
+            return parse(files, main, stop_before_step, budget=None)
     _clear_n[0] += 1
     if _clear_n[0] % 200 == 0:
         keep = {k: v for k, v in glue._cached_modules.items() if k[1] == ""}
